@@ -27,6 +27,23 @@ HAND = [
 ]
 
 
+def else_cycle_shapes():
+    """a loop whose case falls into its else clause, which ends in an inner case whose else clause (shared with a pattern or not) only
+    acts: the way round consumes nothing for the bytes neither case lists, while other bytes listed *somewhere* take different
+    transitions (the compile-time loop check has to follow symbols one by one)"""
+    out = []
+    inner_else = ['"c 2"i, else -> {\n      n = [0 * 3 + (97 & m)];\n     }', 'else -> {\n      n = 0;\n     }', '"q", else -> {\n     }']
+    outer = ['/[\\da\\W]{2}/ -> {\n    b = true;\n   }\n   "ec;" -> {\n    h();\n   }\n   "c0" -> {\n    n = 1;\n    break;\n   }',
+             '/[a-f]+;/ -> {\n    h();\n   }\n   "0" -> {\n    break;\n   }', '"x" -> {\n    break;\n   }']
+    for ie in inner_else:
+        for ou in outer:
+            for pre in ('if m != m + 3 {\n     h();\n    }\n    ', ''):
+                src = ("out int n = 7;\nout int{unsigned} m = 0;\nout bool b = true;\nhook h;\nparser {\n loop {\n  case {\n   else -> {\n    %scase {\n     \"a\" -> {\n      \"c\"i;\n      h();\n     }\n     %s\n"
+                       "     \"0e\" -> {\n      h();\n     }\n    }\n   }\n   %s\n  }\n }\n h();\n}\n") % (pre, ie, ou)
+                out.append((src, [], [b"\x01A", b"A", b"zz", b"ac", b"c 2", b"\xff\xff\xff", b"0e!", b"!!"]))
+    return out
+
+
 def must_not_spin_shapes():
     """loop bodies that can complete without consuming a byte, with a data-dependent exit: accepted or not, feed must return"""
     nonconsuming = [
@@ -152,7 +169,7 @@ def run(ctx: Ctx):
     pool3, st3 = work.generated_pool(rng, n_gen, profile={"eof": True, "w": {"try_": 12, "wait": 6, "loop": 8}},
                                      args_fn=lambda rng, ast: [rng.choice(["-O0", "-O1", "-O3"]), "-findirect-start-ptr"])
     entries = [(ast, src, args, None) for ast, src, args, r in pool + pool2 + pool3]
-    for src, args, ins in HAND + must_not_spin_shapes():
+    for src, args, ins in HAND + must_not_spin_shapes() + else_cycle_shapes():
         entries.append((None, src, args + ["-findirect-start-ptr"], ins))
     ctx.cov.update({"programs_generated": st["generated"] + st2["generated"] + st3["generated"], "programs_accepted": len(entries)})
     for chunk in work.chunked(entries, 28):
